@@ -5,11 +5,13 @@ import DriverOps.C05
 import DriverOps.C06
 import DriverOps.C09
 import DriverOps.C10
+import DriverOps.C11
 import DriverOps.C12
+import DriverOps.C13
 import DriverOps.C14
 import DriverOps.C19
 import DriverOps.Core
 open Lean
 namespace DriverOps
-def tables : List (String → Array Json → R (Option Json)) := [c01, c02, c03, c05, c06, c09, c10, c12, c14, c19, core]
+def tables : List (String → Array Json → R (Option Json)) := [c01, c02, c03, c05, c06, c09, c10, c11, c12, c13, c14, c19, core]
 end DriverOps
